@@ -1,5 +1,6 @@
 SPECIFICATION Spec
 CONSTANTS
   Depth = 3
+  Explicit = FALSE
 INVARIANTS ErrorBeforeTouch Precedence NearestOnly Emit
 CHECK_DEADLOCK FALSE
